@@ -607,6 +607,15 @@ func (s DB) loadRootGraph(ctx context.Context) (rootGraph, error) {
 	for _, rootName := range s.crdt.MergeSources {
 		todo[rootName] = struct{}{}
 	}
+	// versions other writers committed meanwhile, and their ancestry, are
+	// part of the history as well
+	heads, err := s.listRoots(ctx)
+	if err != nil {
+		return nil, fmt.Errorf("list versions: %w", err)
+	}
+	for _, rootName := range heads {
+		todo[rootName] = struct{}{}
+	}
 	persists := []mast.Persist{s.merged, s.root}
 	for {
 		rootName, ok := getFirst(todo)
